@@ -808,7 +808,12 @@ def _state_violation(ctx, case, res, m_rows, k):
         kk = _first_state_diff(_cmp_rows(r), m) if m is not None else None
         return None if kk is None else (c, r, m, kk)
 
-    if not case.get("crash"):
+    n_rep = getattr(ctx, "_c11_state_reports", 0)
+    ctx._c11_state_reports = n_rep + 1
+    if n_rep >= 12:
+        ctx.notes["state_violations_not_reported_separately"] = n_rep - 11
+        return
+    if not case.get("crash") and n_rep < 4:  # shrinking re-runs the real stack: the first few reports only
         budget = 40
         # the history up to the row's own exchange, then drop exchanges one at a time
         logged = [o for o in res["obs"] if o.get("implicit") and o.get("writes") and "out" in o]
@@ -1279,8 +1284,17 @@ def replay(ctx, rec):
     _env()
     res = run_case(case)
     j = judge(res, case)
+    extra = {}
+    if j is None:
+        # the recorded state against the client's view as the model folds it over the replies
+        m = _model_rows(ctx, case, res)
+        rows = _cmp_rows(res)
+        k = _first_state_diff(rows, m) if m is not None else None
+        if k is not None:
+            j = ("row-field:state", f"row {k} records the state {rows[k]['state']}, the client's view before the request is {m[k]['state']}", k)
+            extra = {"model_rows": m}
     print(json.dumps({"rows": res["rows"], "warnings": res["warnings"], "end": res["end"],
-                      "expected_rows": expected_rows(res["obs"]), "verdict": j}, indent=1, default=str))
+                      "expected_rows": expected_rows(res["obs"]), "verdict": j} | extra, indent=1, default=str))
     return 1 if j is not None else 0
 
 
